@@ -806,6 +806,17 @@ class Interp:
         return tuple(out)
 
     def ev_List(self, e, fr):
+        if e.elts and all(isinstance(x, ast.Starred) for x in e.elts):
+            # [*a, *b, ...] of abstract sequences: their concatenation (a new list)
+            parts = [self.ev(x.value, fr) for x in e.elts]
+            if any(isinstance(p, SList) and not p.concrete for p in parts) and all(isinstance(p, SList) for p in parts):
+                from .ops import list_concat
+                acc = parts[0]
+                for p in parts[1:]:
+                    acc = list_concat(self.cx, acc, p)
+                if len(parts) == 1:
+                    acc = self.b.f_list([acc], {}, fr)
+                return acc
         return SList(list(self.ev_Tuple(e, fr)))
 
     def ev_Set(self, e, fr):
